@@ -705,7 +705,13 @@ int main(int argc, char** argv) {
       Params q = make_params(r, P, eps_h);
       if (dep || r.coin(30)) q.xcov = false;
       if (dep || r.coin(30)) { static const double C[] = {0.0625, 0.5, 0.125, 0.03125}; if (r.coin()) q.rel_eps_f = C[r.below(4)]; else q.abs_eps_f = C[r.below(4)]; }
-      if (dep) { q.init_loup = POS_INFINITY; q.eps_x = 1e-7; if (q.ctc >= 9) q.ctc = 0; }
+      if (dep) { q.init_loup = POS_INFINITY; q.eps_x = 1e-7; if (q.ctc >= 9) q.ctc = 0;
+        // an a-priori bound slightly BELOW the minimum of a function with multiple occurrences: refuting it takes many cells
+        // (no feasible point is ever found: the final status must be NO_FEASIBLE_FOUND whatever the interruptions)
+        if (P.has_p && r.coin(40)) { Interval fp = P.sys->goal->eval(IntervalVector(P.p)); if (!fp.is_empty() && !fp.is_unbounded()) q.init_loup = fp.lb() - (r.coin() ? 0.015625 : 0.0009765625); } }
+      else if (P.has_p && r.coin(30)) { // an a-priori upper bound carried through the interruptions: below / equal to / above the planted value
+        Interval fp = P.sys->goal->eval(IntervalVector(P.p));
+        if (!fp.is_empty() && fp.is_degenerated()) switch (r.below(4)) { case 0: q.init_loup = fp.lb() - 0.0009765625; break; case 1: q.init_loup = fp.lb() - 1; break; case 2: q.init_loup = fp.lb(); break; default: q.init_loup = fp.lb() + 0.5; } }
       try {
         Result R0 = run_once(P, q, full ? 600 : 160);
         if (R0.st == Optimizer::TIME_OUT && !r.coin(25)) continue;     // mostly searches that finish within the budget
